@@ -12,6 +12,7 @@ DEFAULT_NOTE = ("Trusted: Lean 4.33 kernel; axioms propext, Classical.choice, Qu
                 "standard, not present in the sandbox; C++ object lifetime and aliasing are modelled by immutable values.")
 LEVEL_NOTE = {}
 LEVEL_TEXT = {
+    "C15": "Theorems C15_can / C15_lin / C15_cm / C15_bus: for a TECMP message laid out from the protocol table (28-byte header THdr, CAN/CAN-FD: arbitration id, length, data, crc; LIN: pid, length, data, checksum; capture-module status; bus status: 12 generic bytes + 12-byte entries) with arbitrary in-range header fields, decoding yields exactly the packets whose device id, timestamp, interface id (entry's id for bus status), arbitration id mod 2^29 / LIN id mod 64, data bytes and length, DLC code, checksum, decimal serial and version strings and counters equal the wire fields, one packet per complete bus-status entry; C15_unsupported (all 256 message types x all 65536 data types outside the supported set), C15_misfit_* (inner lengths or header length not fitting the buffer) yield no packet; C15_valid_payloads: every converted payload passes its class validator (so C03 applies). Tied to the code by table-built TECMP frames of every data length, all message types, consistent and inconsistent lengths.",
     "C02": "Theorem decode_inbounds: a checked-read twin of the whole decoder (CMP walk, reassembly, every TECMP path; reads in the order and under exactly the guards of the C++) NEVER performs an out-of-bounds read and equals the plain model, for every decoder state and every buffer; termination is Lean's termination checker on the message walk (>= 16 bytes per step) and structural recursion of the TECMP entry loop; decode_count (12 * packets <= length), decode_payload_present, reassembled_length_inbounds (16-bit length wrap of > 65535 accumulated bytes stays inside), decode_state_ok (invariant over any history), decode_null / decode_short. PARTIAL clause: 'returned packets own their data after the buffer / decoder is released' is about object lifetime, which immutable model values cannot express; the harness observes it (input in an exact-size heap block freed - ASan-poisoned - before packets are read back; decoder destroyed before the last read). Tied to the code by every truncation / field corruption of well-formed frames, TECMP frames of all 256 message types, random strings and histories under ASan+UBSan.",
     "C04": "Theorems C04_wire / C04_pad / C04_truncate: for a frame laid out from the protocol table (WFrame/WMsg: independent of the encoder model) with any number of unsegmented messages, any in-range field values, ANY decoder state, decoding returns exactly one packet per message in wire order with device/stream id, version, message type, timestamp, interface or vendor id by message type, flags, payload type and bytes equal to the big-endian wire fields; zero padding changes nothing; a frame cut at ANY offset yields exactly the packets of the messages still completely contained (fitCount); C04_invalid_marked: a typed payload rejected by its validator (inner length misfit, CAN/CAN-FD/Ethernet bus-error flags) is returned type 0 / same length / no wire bytes. Tied to the code by table-built frames with consistent and inconsistent payloads, every truncation, padding, prior history.",
     "C16": "Refinement: theorem abs_step (one concrete step of the vector-based tracker = one step of the specification map device id -> (latest capture-module packet, interface id -> latest packet)) under the invariant Inv (unique ids), inv_step, and status_refines for EVERY operation sequence from the empty tracker; entries_are_keys (exactly one entry per key), index_spec / if_index_spec (lookups return the position of the matching entry or the count), update_other_kind / update_unknown_device (identities), if_key_is_payload_id. Swap-with-last removal is modelled literally. Tied to the code by exhaustive and random operation histories with a dump and index probes after every operation; the compared view is the sorted map, vector order is checked against the implementation's own dump.",
@@ -88,7 +89,8 @@ reg(Spec("C06", "Loss, duplication or reordering never yields a corrupted packet
          ["AsamCmp.fault_safe", "AsamCmp.C06_no_corruption", "AsamCmp.fault_recovery", "AsamCmp.fault_recovery_unseg", "AsamCmp.C06_no_corruption_interleaved", "AsamCmp.C06Example.nonvacuous"], ["AsamCmp.Props.C06"], gen_dec.gen_c06, predicate=gen_dec.pred_c06,
          view=lambda c, l: l[-3:],
          rule="encoder output under fault scripts: single faults (drop/dup/swap/corrupt version/corrupt type) and random fault sequences, clean tail for recovery"))
-reg(Spec("C15", "TECMP messages convert to equivalent ASAM CMP packets", [], [], [], gen_dec.gen_c15,
+reg(Spec("C15", "TECMP messages convert to equivalent ASAM CMP packets", ["AsamCmp.Props.C15"],
+         ["AsamCmp.C15.hdr_length", "AsamCmp.C15.C15_can", "AsamCmp.C15.C15_lin", "AsamCmp.C15.C15_cm", "AsamCmp.C15.C15_bus", "AsamCmp.C15.C15_unsupported", "AsamCmp.C15.C15_misfit_can", "AsamCmp.C15.C15_misfit_lin", "AsamCmp.C15.C15_misfit_cm", "AsamCmp.C15.C15_misfit_bus", "AsamCmp.C15.C15_misfit_header", "AsamCmp.C15.C15_valid_payloads"], ["AsamCmp.Props.C15"], gen_dec.gen_c15,
          rule="TECMP frames from the layout table: CAN/CAN-FD/LIN of every data length, capture-module and bus status, all 256 message types, inconsistent lengths"))
 reg(Spec("C17", "Decoder keeps reassembly state only for messages in progress", ["AsamCmp.Props.C17"],
          ["AsamCmp.parseFrame_WF", "AsamCmp.localStep_refines", "AsamCmp.C17_pending_iff_open", "AsamCmp.C17_pending_bytes", "AsamCmp.C17_idle_empty", "AsamCmp.C17_support", "AsamCmp.C17_release", "AsamCmp.C17_last_releases", "AsamCmp.decode_foreign_state"], ["AsamCmp.Props.C17"], gen_dec.gen_c17,
